@@ -124,7 +124,7 @@ def gen(rng, tier):
         for t in itertools.product(big, repeat=n):
             yield line(t)
     # random long histories
-    count = 240 if tier == "quick" else 3000
+    count = 500 if tier == "quick" else 3000
     hi = 60 if tier == "quick" else 200
     for i in range(count):
         n = rng.randint(20, hi)
@@ -142,8 +142,20 @@ def steps(out):
 
 
 def meets_spec(impl, spec):
-    # the flat map does not constrain tree shapes (interface-less intermediate nodes): drop the T section
-    return ";".join(s.rsplit("|", 1)[0] for s in steps(impl)) == spec
+    # the flat map does not constrain tree shapes (interface-less intermediate nodes): drop the T section;
+    # a successful removal is "OK" in the spec: the flag it returns (T/F) is not constrained
+    a, b = steps(impl), steps(spec)
+    if len(a) != len(b):
+        return False
+    for x, y in zip(a, b):
+        x = x.rsplit("|", 1)[0]
+        if y.startswith("OK|"):
+            rx, _, restx = x.partition("|")
+            if rx not in ("T", "F") or restx != y[3:]:
+                return False
+        elif x != y:
+            return False
+    return True
 
 
 def results(impl_out):
